@@ -21,6 +21,9 @@
    Variants re-create the defects the conformance checks found in the pinned tree (each must violate):
      "no_recheck"     the CAS-failure paths test stop_requested only while the word is locked
                       (second request_stop() winner; callback registered after the stop never runs)
+     "no_spin_recheck" lock_and_request_stop does not test stop_requested while it spins on the lock bit
+                      (seeded change C14-2): a requester that waited for a registration holding the lock
+                      retries its CAS on "stop requested, unlocked" and wins a second time
      "os_ids_equal"   remove_callback compares pika thread ids only: two plain OS threads look equal, so
                       a destroyer on another OS thread believes it is inside its own callback
 *)
@@ -67,8 +70,9 @@ RSpin(r) ==
     /\ rpc[r] = "spin"
     /\ IF rold[r].locked
           THEN /\ rold' = [rold EXCEPT ![r] = word]
-               /\ IF word.stopped THEN rres' = [rres EXCEPT ![r] = "false"] /\ rpc' = [rpc EXCEPT ![r] = "done"]
-                                  ELSE UNCHANGED <<rres, rpc>>
+               /\ IF word.stopped /\ Variant # "no_spin_recheck"
+                     THEN rres' = [rres EXCEPT ![r] = "false"] /\ rpc' = [rpc EXCEPT ![r] = "done"]
+                     ELSE UNCHANGED <<rres, rpc>>
           ELSE rpc' = [rpc EXCEPT ![r] = "cas"] /\ UNCHANGED <<rold, rres>>
     /\ UNCHANGED <<word, list, linked, finished, remPtr, remFlag, sig, executed, running, destroyed, unlinked, bad, rcur, apc, aold, ares, dpc>>
 ROwn(r) ==
